@@ -572,7 +572,7 @@ var C19 = register(&HistProp{ID: "C19",
 		return sim.DrawGenesis(t, sim.GenOpts{ManyEntries: true, UsedInGen: true, MaxAtt: 5})
 	},
 	Next: func(g *sim.G, i int) *sim.Op {
-		return Mix{Admin: 14, Recv: 3, Send: 1, Dep: 1, DepValid: 80, RecvBroken: 15, AdminHolder: 90, Rollback: 6,
+		return Mix{Admin: 14, Recv: 3, Send: 1, Dep: 1, DepValid: 80, RecvBroken: 15, AdminHolder: 90, Rollback: 6, Restart: 2,
 			AdminTypes: []string{"EnableAttester", "DisableAttester", "LinkTokenPair", "LinkTokenPair", "UnlinkTokenPair", "UnlinkTokenPair", "AddRemoteTokenMessenger", "RemoveRemoteTokenMessenger",
 				"SetMaxBurnAmountPerMessage", "SetMaxBurnAmountPerMessage", "UpdateSignatureThreshold", "UpdateMaxMessageBodySize", "PauseBurningAndMinting", "UnpauseBurningAndMinting", "UpdatePauser"}}.next(g)
 	},
